@@ -238,6 +238,9 @@ CORPUS = [
     "; M 2 2 1/2 2 3 4 k 2/3 M 2 2 1 1 0 1 mul 3",
     "; I 0",
     "; Z 0 0 I 0 add 2",
+    "S1=2x3 ; S 1 Z 3 4 mul 2",
+    "S1=2x3 ; Z 4 2 S 1 mul 2",
+    "S1=2x2 ; S 1 conj tr conj",
 ]
 
 
